@@ -262,6 +262,133 @@ class VariantRoundTrip(Case):
 
 
 # ---- bounded: native round trips under a hash-seed sweep ----------------------------------------------------------
+class CollectionParentRoundTrip(Case):
+    """AnnotationCollection.from_dict(col.to_dict(export_parent=True)) restores the parent the collection was built on,
+    for every KIND of parent: an untyped sequence-less Parent(id), a typed sequence-less chromosome, a whole chromosome
+    with sequence (seq_to_parent), a sequence chunk of either strand (seq_chunk_to_parent) - id, sequence type, text
+    (symbolic), chunk coordinates and strand - and the collection keeps its bounds."""
+    props = ("C08", "C09")
+    func = "gene.collections.AnnotationCollection.from_dict"
+    module = "gene.collections"
+    shard_depth = 3
+
+    def __init__(self, kind):
+        self.kind = kind
+        self.name = f"AnnotationCollection.from_dict(to_dict(export_parent=True))[parent: {kind}]"
+        self.call = ("(lambda c: (c._parent_or_seq_chunk_parent, c.start, c.end, "
+                     "[g.gene_id for g in c.genes], c.chunk_relative_location))"
+                     "(AnnotationCollection.from_dict(col.to_dict(export_parent=True)))")
+        self.ensures = {
+            "parent-restored": lambda i, r: _parent_same(i, r[0]),
+            "bounds-and-members": lambda i, r: And(r[1] == i.lo, r[2] == i.hi, list(r[3]) == ["g0"]),
+            "same-chunk-relative-location": lambda i, r: _loc_same(r[4], i.col_loc),
+        }
+
+    def inputs(self, S):
+        from .c09_queries import AC, GENE
+        strand = strand_of(S, "strand")
+        s, e, lo, hi = S.int("s0"), S.int("e0"), S.int("col_start"), S.int("col_end")
+        S.assume(And(0 <= lo, lo <= s, s < e, e <= hi))
+        text, cs, ce, minus = None, None, None, False
+        if self.kind == "untyped id only":
+            par = S.new(PARENT, id="chr1")
+        elif self.kind == "typed chromosome, no sequence":
+            par = S.new(PARENT, id="chr1", sequence_type="chromosome")
+        elif self.kind == "whole chromosome with sequence":
+            text = S.symstr("seq")
+            S.assume(hi <= slen(text))
+            f = S.fn("io.parser.seq_to_parent")
+            par = f(text, seq_id="chr1") if S.mode == "native" else S.e.call(f, [text], {"seq_id": "chr1"})
+        else:
+            from .c04_liftover import chunk_parent_stranded
+            par, cs, ce, minus = chunk_parent_stranded(S)
+            S.assume(And(cs <= lo, hi <= ce))
+            text = S.symstr("chunk_seq")
+        tx = S.new(TRANSCRIPT, [s], [e], strand, transcript_id="tx0", parent_or_seq_chunk_parent=par)
+        gene = S.new(GENE, [tx], gene_id="g0", parent_or_seq_chunk_parent=par)
+        col = S.new(AC, genes=[gene], start=lo, end=hi, parent_or_seq_chunk_parent=par)
+        col_loc = col.chunk_relative_location if S.mode == "native" else S.e.getattr(col, "chunk_relative_location")
+        return NS(col=col, par=par, lo=lo, hi=hi, text=text, cs=cs, ce=ce, minus=minus, k=S.int("k"), col_loc=col_loc,
+                  AnnotationCollection=S.cls(AC))
+
+    def samples(self, rng):
+        lo = rng.randint(0, 4)
+        s = lo + rng.randint(0, 3)
+        e = s + rng.randint(1, 5)
+        hi = e + rng.randint(0, 3)
+        d = dict(strand=rng.choice(["PLUS", "MINUS"]), s0=s, e0=e, col_start=lo, col_end=hi, k=rng.randint(0, 12))
+        if self.kind == "whole chromosome with sequence":
+            d["seq"] = "".join(rng.choice("ACGT") for _ in range(hi + rng.randint(0, 3)))
+        elif self.kind.startswith("sequence chunk"):
+            cs = rng.randint(0, lo)
+            ce = hi + rng.randint(0, 3)
+            d.update(chunk_start=cs, chunk_end=ce, chunk_strand=rng.choice(["PLUS", "MINUS"]),
+                     chunk_seq="".join(rng.choice("ACGT") for _ in range(ce - cs)))
+        return d
+
+    def observe(self, r):
+        from pyvc.check import default_observe as o
+        from .c02_single import obs_loc
+        p = r[0]
+        seq = None
+        if p is not None and p.sequence is not None:
+            t = p.sequence.sequence if hasattr(p.sequence, "attrs") else str(p.sequence)
+            seq = t if isinstance(t, str) else None
+        st = None if p is None else p.sequence_type
+        if st is not None:  # str-valued enum: compare by value in both worlds
+            st = st.members[st.idx][1] if hasattr(st, "members") else str(getattr(st, "value", st))
+        return [None if p is None else [o(p.id), st, seq], o(r[1]), o(r[2]), list(r[3]), obs_loc(r[4])[:3]]
+
+
+def _seq_text(p):
+    if p is None or p.sequence is None:
+        return None
+    return p.sequence.sequence if hasattr(p.sequence, "attrs") else str(p.sequence)
+
+
+def _parent_same(i, p):
+    if p is None:
+        return False
+    q = i.par
+    conds = [p.id == q.id if not hasattr(p.id, "tag") else same_text(p.id, q.id) is not False]
+    conds.append(_enum_or_none_eq(p.sequence_type, q.sequence_type))
+    tp, tq = _seq_text(p), _seq_text(q)
+    if (tp is None) != (tq is None):
+        return False
+    if tq is not None:
+        conds.append(_tlen(tp) == _tlen(tq))
+        conds.append(Implies(And(0 <= i.k, i.k < _tlen(tq)), _tchar(tp, i.k) == _tchar(tq, i.k)))
+    if i.cs is not None:
+        loc = p.sequence.parent.location
+        conds.append(And(loc.start == i.cs, loc.end == i.ce, enum_name_is(loc.strand, "MINUS" if i.minus else "PLUS")))
+    return And(*conds)
+
+
+def _enum_or_none_eq(a, b):
+    """SequenceType is a str-valued enum: 'chromosome' and SequenceType.CHROMOSOME are the same type."""
+    if a is None or b is None:
+        return a is None and b is None
+
+    def val(x):
+        if hasattr(x, "members") and hasattr(x, "idx"):
+            return x.members[x.idx][1] if isinstance(x.idx, int) else None
+        return getattr(x, "value", x)
+    return val(a) == val(b)
+
+
+def _loc_same(a, b):
+    from .c02_single import blocks_of
+    if class_name(a) != class_name(b):
+        return False
+    if class_name(a) == "_EmptyLocation":
+        return True
+    ba, bb = blocks_of(a), blocks_of(b)
+    if len(ba) != len(bb):
+        return False
+    return And(*[And(x[0] == y[0], x[1] == y[1]) for x, y in zip(ba, bb)],
+               enum_eq(a.strand, b.strand) if hasattr(a.strand, "idx") else a.strand is b.strand)
+
+
 class GuidSensitivity(Case):
     """'changing a coordinate ... changes the identifier' on the real md5-based digest (the verifier models the digest
     as a function of its ARGUMENT TUPLE, so it cannot see that digest_object feeds the pieces to md5 without any
@@ -415,3 +542,5 @@ class NativeRoundTrips(Case):
 
 CASES = [TranscriptRoundTrip(1, False), TranscriptRoundTrip(2, False), TranscriptRoundTrip(1, True), VariantRoundTrip(),
          NativeRoundTrips(), CdsGuidContent(), ParentToDict(), GuidSensitivity()]
+CASES += [CollectionParentRoundTrip(k) for k in ("untyped id only", "typed chromosome, no sequence",
+                                                 "whole chromosome with sequence", "sequence chunk of either strand")]
